@@ -12,7 +12,7 @@ use neurons::tensor::{Shape, Tensor};
 
 pub fn meta(ctx: &Ctx) -> Meta {
     Meta {
-        rule: format!("every seed p in 1..m-1 (m = 2^31-1; = every generator state once) x intervals {} for generate: value in [min,max] and within rounding of the reference minstd value; real shuffle from every state for lengths {}; bands of 2^17 states at both ends of the state range: shuffle lengths 1..8,10,100,1000 and an interval grid incl. non-dyadic bounds; stride-4099 cover of all states for shuffle lengths 1..8; lengths 4096, 4097, 5000, 10^4, 65537 from the 128 extreme states and a sparse cover; lengths 2^24+3 and 2^24+4 (beyond exact usize -> f32 conversion) from the extreme states; degenerate, negative, subnormal and wider-than-MAX intervals ((-3e38,3e38), (MIN,MAX), (0,MAX), ..) from the seed list and the extreme states; seed list incl. 0, m, 2^32, 2^64/48271+-2, 1.7e18, 2^63, u64::MAX; all 70 interleavings of 4+4 calls on two equal-seed generators; Tensor::random over all shapes of rank 1-4 with extents <= 3. Non-trivial = every state is a distinct case", if ctx.tier.thorough() { "{(0,1),(-1,1),(0,2),(-0.5,0.5)}" } else { "{(0,1),(-1,1)}" }, if ctx.tier.thorough() { "1..8" } else { "1..2" }),
+        rule: format!("every seed p in 1..m-1 (m = 2^31-1; = every generator state once) x intervals {} for generate: value in [min,max] and within rounding of the reference minstd value; real shuffle from every state for lengths {}; bands of 2^17 states at both ends of the state range: shuffle lengths 1..8,10,100,1000 and an interval grid incl. non-dyadic bounds; stride-4099 cover of all states for shuffle lengths 1..8; lengths 4096, 4097, 5000, 10^4, 65537 from the 128 extreme states and a sparse cover; lengths 2^24+3 and 2^24+4 (beyond exact usize -> f32 conversion) from the extreme states; degenerate, negative, subnormal (incl. bounds 1, 3, 5, 9 units of 2^-149) and wider-than-MAX intervals ((-3e38,3e38), (MIN,MAX), (0,MAX), ..) from the seed list and the extreme states; seed list incl. 0, m, 2^32, 2^64/48271+-2, 1.7e18, 2^63, u64::MAX; all 70 interleavings of 4+4 calls on two equal-seed generators; Tensor::random over all shapes of rank 1-4 with extents <= 3. Non-trivial = every state is a distinct case", if ctx.tier.thorough() { "{(0,1),(-1,1),(0,2),(-0.5,0.5)}" } else { "{(0,1),(-1,1)}" }, if ctx.tier.thorough() { "1..8" } else { "1..2" }),
         bound: "complete over the 2^31-2 non-zero states for the listed intervals and lengths".into(),
         exhaustive: true,
         assumptions: vec![
@@ -253,7 +253,7 @@ fn check_special(seed: u64, rep: &mut Report) {
         }
     }
     // degenerate, negative and very wide intervals
-    for (min, max) in [(0.3f32, 0.3f32), (-3.0, -1.0), (1.0e-3, 1.0e3), (-1.0e30, 1.0e30), (-0.0, 0.0), (5.0, 5.000001), (-3.0e38, 3.0e38), (f32::MIN, f32::MAX), (-1.0e38, 3.0e38), (0.0, f32::MAX), (f32::MIN, 0.0), (-1.0e-45, 1.0e-45), (1.0e-40, 3.0e-40)] {
+    for (min, max) in [(0.3f32, 0.3f32), (-3.0, -1.0), (1.0e-3, 1.0e3), (-1.0e30, 1.0e30), (-0.0, 0.0), (5.0, 5.000001), (-3.0e38, 3.0e38), (f32::MIN, f32::MAX), (-1.0e38, 3.0e38), (0.0, f32::MAX), (f32::MIN, 0.0), (-1.0e-45, 1.0e-45), (1.0e-40, 3.0e-40), (f32::from_bits(1), f32::from_bits(1)), (f32::from_bits(5), f32::from_bits(9)), (f32::from_bits(1), 1.0), (f32::from_bits(0x8000_0005), f32::from_bits(3))] {
         rep.transitions += 1;
         let r = guard(|| {
             let mut g = Generator::create(seed);
@@ -419,7 +419,7 @@ pub fn run(ctx: &Ctx) -> Report {
                     }
                 }
                 // intervals wider than f32::MAX, and subnormal ones: only the range is demanded (max - min is not finite)
-                for (min, max) in [(-3.0e38f32, 3.0e38f32), (f32::MIN, f32::MAX), (0.0, f32::MAX), (-1.0e-45, 1.0e-45)] {
+                for (min, max) in [(-3.0e38f32, 3.0e38f32), (f32::MIN, f32::MAX), (0.0, f32::MAX), (-1.0e-45, 1.0e-45), (f32::from_bits(1), f32::from_bits(1)), (f32::from_bits(5), f32::from_bits(9))] {
                     r.transitions += 1;
                     match guard(|| Generator::create(*seed).generate(min, max)) {
                         Ok(v) => {
